@@ -110,6 +110,14 @@ func romList(c *Ctx, tmp string, n int) []string {
 	return out
 }
 
+// remapGen maps the path of a generated ROM of an earlier run to the regenerated file of this run.
+func remapGen(rom, tmp string) string {
+	if b := filepath.Base(rom); len(b) > 4 && b[:4] == "gen-" {
+		return filepath.Join(tmp, b)
+	}
+	return rom
+}
+
 func digest(parts ...[]byte) int {
 	h := fnv.New32a()
 	for _, p := range parts {
@@ -220,7 +228,7 @@ func gbDigest(gb *gameboy.Gameboy, serial *bytes.Buffer) int {
 		}
 		mem = append(mem, m.VerifPeek(uint16(a)))
 	}
-	return digest(regBytes(gb.VerifCPU().VerifGet()), mem, gb.VerifPPU().Frame().Pix, m.DumpRAM(), serial.Bytes(), regBytes(gb.VerifTimer().VerifCounter()))
+	return digest(regBytes(gb.VerifCPU().VerifGet()), mem, gb.VerifPPU().Frame().Pix, m.DumpRAM(), serial.Bytes(), regBytes(gb.VerifTimer().VerifCounter()), regBytes(m.VerifRTCGet()))
 }
 
 func machineDigest(mc *machine.Machine) int {
@@ -231,7 +239,7 @@ func machineDigest(mc *machine.Machine) int {
 		}
 		mem = append(mem, mc.M.VerifPeek(uint16(a)))
 	}
-	return digest(regBytes(mc.CPU.VerifGet()), mem, mc.P.Frame().Pix, mc.M.DumpRAM(), mc.Serial.Bytes(), regBytes(mc.T.VerifCounter()))
+	return digest(regBytes(mc.CPU.VerifGet()), mem, mc.P.Frame().Pix, mc.M.DumpRAM(), mc.Serial.Bytes(), regBytes(mc.T.VerifCounter()), regBytes(mc.M.VerifRTCGet()))
 }
 
 // runRun: gameboy.Run with the stand-in display / speakers; the stop is requested by cancelling the context at a
@@ -283,6 +291,14 @@ func runRun(id, rom string, mode string, at int, audio bool) *trace.Scenario {
 }
 
 func systemMain(c *Ctx) {
+	if c.Mode == "detchild" {
+		systemDetChild(c)
+		return
+	}
+	if c.Mode == "multichild" {
+		systemMultiChild(c)
+		return
+	}
 	w := trace.NewWriter(c.Out, "system", 40000)
 	tmp, _ := os.MkdirTemp("", "verif-roms")
 	defer os.RemoveAll(tmp)
@@ -295,9 +311,9 @@ func systemMain(c *Ctx) {
 		romList(c, tmp, 24)
 		for _, s := range scs {
 			r := s.Reset.([]any)
-			rom := trace.Str(r[1])
-			if filepath.Base(filepath.Dir(rom)) != "individual" && len(rom) > 4 && filepath.Base(rom)[:4] == "gen-" {
-				rom = filepath.Join(tmp, filepath.Base(rom))
+			rom := ""
+			if rs, ok := r[1].(string); ok {
+				rom = remapGen(rs, tmp)
 			}
 			switch trace.Str(r[0]) {
 			case "cycles":
